@@ -14,7 +14,8 @@ import sys
 import time
 
 VERIF = os.path.dirname(os.path.dirname(os.path.abspath(__file__)))
-REPO = '/repo'
+# SEED_REPO: a scratch checkout of /repo's HEAD to patch instead of /repo itself (used while a long check of /repo is running)
+REPO = os.environ.get('SEED_REPO', '/repo')
 
 
 def sh(cmd, cwd=None, timeout=3600, env=None):
@@ -43,6 +44,8 @@ def main():
         out['ran'].append('/root/mut/run_suite.sh (repository test-suite in an isolated netns) with patch -> %s' % out['suite'])
     sh('git checkout -- pysyncobj', cwd=wt)
     # 2. checks against /repo with the change applied
+    if REPO != '/repo':
+        sh('git -C %s reset -q --hard; git -C %s checkout -q --detach main; git -C %s clean -fdq' % (REPO, REPO, REPO))
     assert sh('git -C %s status --porcelain' % REPO)[1].strip() == '', '/repo is not clean'
     rc, o = sh('git -C %s apply %s' % (REPO, diff))
     if rc != 0:
@@ -54,7 +57,7 @@ def main():
     try:
         for p in props:
             t = time.time()
-            rc, o = sh('./check %s --tier quick --no-evidence' % p, cwd=VERIF, timeout=3600)
+            rc, o = sh('./check %s --tier quick --no-evidence' % p, cwd=VERIF, timeout=3600, env=dict(os.environ, REPO=REPO))
             viol = [l for l in o.splitlines() if l.startswith('VIOLATION')]
             detail = [l.strip() for l in o.splitlines() if l.strip().startswith('obligation=')]
             res[p] = dict(exit=rc, violations=viol[:6], detail=[d[:300] for d in detail[:4]], wall_s=round(time.time() - t, 1),
